@@ -70,6 +70,12 @@ def rule_edgepred(ctx):
             else:
                 good_w = False
         idiom = sorted(kinds) in (["method:append", "setitem"], ["method:append", "method:setdefault"])
+        # every hit pair must be recorded: the append runs on every iteration (only the creation of the list is conditional)
+        for m in writes:
+            if m.how == "method:append":
+                extra = [x for x in m.pc if x[0] != "loop"]
+                inloop = [x for x in m.pc if x[0] == "loop"]
+                yield ob("C05.EDGEPRED", f, "%s:append-unconditional" % q, not extra and len(inloop) == 1, "G[e].append(r) runs for every hit pair" if not extra else "G[e].append(r) is conditional (%s): hit pairs are dropped from the graph, so the matching is no longer maximum over the tolerance graph" % "; ".join(tm.show(x[1], 3) if hasattr(x[1], "op") else str(x[0]) for x in extra), node=m.node)
         yield ob("C05.EDGEPRED", f, "%s:graph-writes" % q, good_w and idiom, "graph is written only by G[e] = [] / G.setdefault(e, []) and .append(r) (%s)" % kinds)
         # iteration over zip(*hits); key = component 1 (estimate index), value = component 0 (reference index)
         zipok = it.op == "call" and call_name(it) == "builtins.zip" and len(it.a[1]) == 1 and it.a[1][0].op == "star"
@@ -288,6 +294,13 @@ def rule_moddist(ctx):
     yield ob("C05.MODDIST", f, "util._outer_distance_mod_n:form", good, why)
     okd, dv = f.default_value("modulus")
     yield ob("C05.MODDIST", f, "util._outer_distance_mod_n:default", okd and dv == 12, "default modulus is %r" % (dv,))
+    # ... and the chroma hit count is taken on the circular tolerance graph (shared with C07.CHROMATWIN)
+    from . import c07
+
+    for o in c07.rule_chromatwin(ctx):
+        if o.construct.startswith("multipitch."):
+            o.rule = "C05.MODDIST"
+            yield o
 
 
 def rule_hkshape(ctx):
@@ -345,11 +358,11 @@ def rule_hkshape(ctx):
 
 
 RULES = [
-    ("C05.EDGEPRED", 16, rule_edgepred),
+    ("C05.EDGEPRED", 20, rule_edgepred),
     ("C05.MATCHSRC", 10, rule_matchsrc),
     ("C05.SUBSET", 3, rule_subset),
     ("C05.ORIENT", 4, rule_orient),
     ("C05.WINDOWSIDES", 5, rule_windowsides),
-    ("C05.MODDIST", 2, rule_moddist),
+    ("C05.MODDIST", 5, rule_moddist),
     ("C05.HKSHAPE", 6, rule_hkshape),
 ]
